@@ -10,8 +10,9 @@ CT = {"__NO_CTYPE": None}   # ctype.h as functions (CBMC models), not glibc tabl
 def _pax(n, tier, label):
     return dict(id="ent%d" % n, defines={"ENTSIZE": n, "__NO_CTYPE": None}, tier=tier, label=label,
                 unwind=max(n + 3, 23),
-                unwindset=["read_pax_header.0:%d" % (n // 4 + 2), "read_pax_header.1:%d" % (n + 2),
-                           "read_pax_header.2:%d" % (n + 2), "free_sparse_list.0:%d" % (n // 4 + 4)])
+                # loops are numbered by back edge: .0 white-space skip, .1 key scan, .2 the line loop
+                unwindset=["read_pax_header.0:%d" % (n + 2), "read_pax_header.1:%d" % (n + 2),
+                           "read_pax_header.2:%d" % (n // 5 + 2), "free_sparse_list.0:%d" % (n // 5 + 4)])
 
 HARNESSES = [
     dict(name="number", file="number.c", label="proved", defines=CT,
